@@ -689,6 +689,11 @@ class SVGPath(SVGShape, SVGCommandSeq):
         target = self
         if not inplace:
             target = copy.deepcopy(self)
+        if "a" in target.d.lower():
+            # a smooth curveto after an arc takes the current point as its first control
+            # point; once the arc is cubics (or gone) it would reflect one of theirs, so
+            # spell shorthand out while the arcs are still there
+            target.expand_shorthand(inplace=True)
         target.walk(arc_to_cubic_callback)
         return target
 
